@@ -259,7 +259,15 @@ def apply_step(p, step):
             from fickling.tracing import Trace
 
             it = Interpreter(p, first_variable_id=step[1], result_variable=f"result{step[1]}")
-            if step[2]:
+            traced = step[2]
+            if traced:
+                # the tracer prints the whole stack after every opcode: on a tree whose shared
+                # sub-trees expand beyond the budget that is gigabytes of text - run it plainly
+                try:
+                    traced = not _too_big(Interpreter(p).to_ast())
+                except Exception:  # noqa: BLE001
+                    pass
+            if traced:
                 with contextlib.redirect_stdout(io.StringIO()):
                     Trace(it).run()
             else:
